@@ -448,6 +448,7 @@ def run(ctx):
     check_local_map_index(ctx, reach)
     check_key_agreement(ctx)
     check_asserted_fresh(ctx, reach)
+    check_fresh_definition_types(ctx)
     # the parser's tabled asserts (`!types.is_empty()` …) rest on decisions taken through a Lookahead: a stale lookahead
     # makes them reachable (C12's R12.8 typestate, recorded here as R14.7)
     import c12_grammar
@@ -600,6 +601,36 @@ def check_asserted_fresh(ctx, reach):
                    "`insert` asserted to displace nothing, but %s: a key that is already present (reachable from the input) makes the assertion panic" % why,
                    site="%s in %s" % (I.span, f.id))
     ctx.ob("R14.9", "count", n >= 15, "asserted-fresh inserts on the pipeline: %d" % n, nontrivial=False)
+
+
+def check_fresh_definition_types(ctx):
+    """R14.10: `type_statement` maps `DefineTypeError::TypeAlreadyDefined` to a panic ("type should not be already defined"):
+    the belief is that every declaration yields a *new* type id.  So every `Type::…` value the declaration resolvers
+    (`type_alias`, `*_decl`) build is made from an id allocated in that very function (`Types::add_*`, or `func_type` which
+    allocates) — never from the id of the item being aliased, which may already be defined (`import f: func(); type g = f;
+    type h = f;`)."""
+    db, prov = ctx.db, ctx.prov
+    RES = "wac_parser::resolution::AstResolver::"
+    n = 0
+    for name in ("type_alias", "variant_decl", "record_decl", "flags_decl", "enum_decl"):
+        f = db.fns.get(RES + name)
+        if f is None:
+            ctx.lost("R14.10", RES + name)
+            continue
+        ctx.touch(f)
+        k = 0
+        for st in f.stmts():
+            if not (st.rv.k == "agg" and (st.rv.j.get("adt") or "").endswith("component::Type") and st.rv.ops):
+                continue
+            k += 1
+            n += 1
+            sl = prov.slice(f, st.rv.ops[0])
+            alloc = sorted({(c.path or "").rsplit("::", 1)[-1] for _, c in sl.calls if (c.path or "").rsplit("::", 1)[-1].startswith("add_") or (c.path or "") == RES + "func_type"})
+            ctx.ob("R14.10", "fresh-type|%s|%s#%d" % (name, st.rv.j.get("variant"), k), bool(alloc),
+                   "the declared type is built from a freshly allocated id (%s)" % ", ".join(alloc) if alloc else
+                   "%s builds `Type::%s` from an existing id (no allocation on its data flow): a second declaration over the same item hands define_type an already "
+                   "defined type and the resolver panics (`type should not be already defined`)" % (name, st.rv.j.get("variant")), site="%s in %s" % (st.span, f.id))
+    ctx.ob("R14.10", "count", n >= 6, "declared-type constructions checked: %d" % n, nontrivial=False)
 
 
 def check_key_agreement(ctx):
